@@ -685,7 +685,7 @@ def _iter_copied(eng, st, fr, t, args, dest, target):
 def _iter_for_each(eng, st, fr, t, args, dest, target):
     items, fns, base = iter_plan(eng, st, args[0])
     if items is None:
-        raise Unmodelled('for_each over an unknown sequence')
+        return _opaque(eng, st, t, args)
     return run_pipeline(eng, st, dest, target, items, fns + [args[1]], lambda st, v: None, lambda: UNIT)
 
 
@@ -695,7 +695,7 @@ def _iter_find(eng, st, fr, t, args, dest, target):
     itv = eng.force(st, eng.load(st, r, p))
     items, fns, base = iter_plan(eng, st, itv)
     if items is None:
-        raise Unmodelled('find over an unknown sequence')
+        return _opaque(eng, st, t, args)
     is_pos = t['callee']['decl'].endswith('position')
     counter = [0]
     # the predicate is the last stage; on_item sees the kept item
@@ -742,7 +742,7 @@ def _iter_count(eng, st, fr, t, args, dest, target):
 def _iter_last(eng, st, fr, t, args, dest, target):
     items, fns, base = iter_plan(eng, st, args[0])
     if items is None:
-        raise Unmodelled('last over an unknown sequence')
+        return _opaque(eng, st, t, args)
     lroot = eng.temp(st, NONE)
 
     def on_item(st, v):
@@ -764,7 +764,7 @@ def _iter_chain(eng, st, fr, t, args, dest, target):
         b = ('iter', 'val', b)
     ib, fb, _ = iter_plan(eng, st, b)
     if ia is None or ib is None or fa or fb:
-        raise Unmodelled('chain of unknown or adapted sequences')
+        return _opaque(eng, st, t, args)
     return ('iter', 'val', ('vec', tuple(ia) + tuple(ib)))
 
 
@@ -1488,6 +1488,13 @@ def iter_plan(eng, st, it):
         items = _concrete_seq(eng, st, it)
         return items, fns, it
     return None, fns, it
+
+
+def _opaque(eng, st, t, args):
+    """fall back to an uninterpreted result (recorded as a library call without a model)"""
+    name = (t.get('callee') or {}).get('resolved') or (t.get('callee') or {}).get('decl') or 'unknown'
+    eng.unmodelled[name] = eng.unmodelled.get(name, 0) + 1
+    return eng.opaque_app(st, name, args)
 
 
 def _takes_arg(f):
